@@ -20,7 +20,7 @@ class C01(Check):
             'braces, edge blanks, number-/keyword-like text), numeric extremes (int min/max, +-0, denormals, max, NaN, '
             '+-inf, random bit patterns), zero-row tables, structure-name torture (substring names, names equal to a '
             'column elsewhere, 1-letter names, mixed case), header dictionaries, astropy Table entry points, big-endian '
-            'input, and refusal of unsupported column types.  Each document is written with the real writer and read '
+            'input, refusal of unsupported column types, and many files in one process reusing a few structure/column names with different declarations.  Each document is written with the real writer and read '
             'back twice (returned object and fresh read).  Non-trivial: >=1 row and >=1 string/extreme cell, or a '
             'zero-row/multi-table/Table-API/refusal case; distinct by hash of the table set.')
     ASSUMPTIONS = ['texts the format cannot express are excluded exactly as listed in the property (plus header values '
@@ -54,7 +54,7 @@ class C01(Check):
         k = 1 if q else 40
         return {'mixed': 500 * k, 'string_torture': 500 * k, 'numeric_extremes': 300 * k, 'zero_rows': 150 * k,
                 'structname_torture': 300 * k, 'headers': 200 * k, 'table_api': 200 * k, 'byteorder': 100 * k,
-                'refusal': 100 * k}
+                'refusal': 100 * k, 'common_names': 250 * k}
 
     # ------------------------------------------------------------------ gen
     def gen(self, cls, rng, i):
@@ -71,6 +71,12 @@ class C01(Check):
                 en = M.ident(rng, 3, 6, suffix=False).upper() + '_T'
                 enums[en] = sorted({M.ident(rng, 1, 6, suffix=False).upper() + str(k) for k in range(rng.randint(1, 4))})
         names = self._names(cls, rng, ntab)
+        if cls == 'common_names':
+            # many files in one process that reuse a few structure and column names with different declarations:
+            # nothing remembered from one file may leak into the next
+            pool = ['MYSTRUCT0', 'MYSTRUCT1', 'OBJ', 'Tab', 'status']
+            rng.shuffle(pool)
+            names = pool[:ntab]
         tables = []
         enum_cols_used = set()
         for t in range(ntab):
@@ -98,6 +104,13 @@ class C01(Check):
                     cols[0] = dict(cols[0], name=cn)
                     if cols[0]['kind'] == 'enum':
                         cols[0] = {'name': cn, 'kind': 'i4', 'width': 0, 'alen': 0}
+            if cls == 'common_names':
+                cpool = ['a', 'b', 'mag', 'flag', 'name', 'x']
+                rng.shuffle(cpool)
+                for ci, c in enumerate(cols[:len(cpool)]):
+                    if c['kind'] != 'enum':
+                        c['name'] = cpool[ci]
+                cols = cols[:len(cpool)]
             if cls == 'zero_rows':
                 nrows = 0 if (t == 0 or rng.random() < 0.6) else rng.randint(1, 3)
             else:
